@@ -11,12 +11,15 @@ func checkC20(c *Ctx, r *Report) {
 	r.Explanation = "R2 (who-may-write package-level state): every SSA store / map update / copy / delete whose address is rooted at a package-level variable " +
 		"(directly, through a pointer/slice/map header loaded from it, or through a parameter that receives such an address) must be in an init function or in the registry mutators " +
 		"mp4.SetBoxDecoder / mp4.RemoveBoxDecoder; no package-level variable of a sync/atomic type. Decides absence of hidden shared mutable state, a necessary condition of C20; " +
-		"R3: exported Decode*/Parse* functions store only into memory they allocated, never through a pointer parameter; O-OWN: elements of a slice held in a struct field are written only by a method of the type, a decoder/constructor named after it, or the function that made the slice (two listed exceptions); O-COPY: a byte-slice field that is grown with append is never assigned a caller's slice directly (except MdatBox.SetData, whose documented contract is to adopt it); R4: no library function calls a storage-sharing method ((*bytes.Buffer).Next/Bytes, (*bufio.Reader).Peek) on the io.Reader it was given, so decoded structures do not alias the caller's input; does not decide races inside the standard library or schedules."
+		"R3: exported Decode*/Parse* functions store only into memory they allocated, never through a pointer parameter; R3-OBS: the ~490 Size/Info/String/Type/Payload/Get*/Is*/Has* methods do not store through their receiver (two accepted, idempotent exceptions), so objects that are only looked at can be shared; O-OWN: elements of a slice held in a struct field are written only by a method of the type, a decoder/constructor named after it, or the function that made the slice (two listed exceptions); O-COPY: a byte-slice field that is grown with append is never assigned a caller's slice directly (except MdatBox.SetData, whose documented contract is to adopt it); R4: no library function calls a storage-sharing method ((*bytes.Buffer).Next/Bytes, (*bufio.Reader).Peek) on the io.Reader it was given, so decoded structures do not alias the caller's input; does not decide races inside the standard library or schedules."
 	r.Assume("call graph = VTA over CHA (x/tools v0.29.0); reflection and unsafe writes are not modelled (unsafe is used once, read-only, in avc/annexb.go)")
 	r.Assume("address escape through interface method calls into non-repository code is not followed")
 	ruleR2(c, r, map[string]bool{"mp4.SetBoxDecoder": true, "mp4.RemoveBoxDecoder": true})
 	ruleNoReaderAliasing(c, r)
 	ruleTencReadOnly(c, r)
+	if n := ruleObserversPure(c, r, map[string]bool{"mp4": true, "avc": true, "hevc": true, "sei": true, "aac": true, "av1": true}); n < 400 {
+		r.Undecided("R3-OBS", "scope", "", fmt.Sprintf("only %d observers found", n))
+	}
 	if n := ruleElementOwners(c, r, map[string]string{
 		"mp4.EncryptFragment -> SaioBox.Offset": "the saio box is created by EncryptFragment for this fragment and its offset is filled in once the moof layout is known",
 		"mp4.DecodeSsixSR -> SubSegment.Ranges": "sub-structure of the ssix box being decoded",
